@@ -3561,6 +3561,30 @@ class NetCDFWrite(IOWrite):
 
                     use_existing_dimension = False
 
+                    file_ncdim = None
+                    if g["dry_run"] and ncdim is not None:
+                        # Dry run of append mode: the construct has
+                        # been read from the dataset, where this axis
+                        # already has a netCDF dimension. Register
+                        # that one, rather than an earlier dimension
+                        # of the same size that happens to be spanned
+                        # by an equal construct (which need not be the
+                        # dimension that the dataset uses, so that
+                        # variables would be registered with netCDF
+                        # dimensions that they do not have).
+                        file_ncdim = ncdim
+                        if not g["group"]:
+                            file_ncdim = self._remove_group_structure(
+                                file_ncdim
+                            )
+
+                        if (
+                            g["ncdim_to_size"].get(file_ncdim) == axis_size0
+                            and file_ncdim not in g["axis_to_ncdim"].values()
+                        ):
+                            use_existing_dimension = True
+                            ncdim1 = file_ncdim
+
                     if spanning_constructs:
                         for key, construct in list(
                             spanning_constructs.items()
@@ -3573,7 +3597,11 @@ class NetCDFWrite(IOWrite):
                                 axes.index(axis),
                             )
 
-                        for b1 in g["ncdim_size_to_spanning_constructs"]:
+                        candidates = g["ncdim_size_to_spanning_constructs"]
+                        if file_ncdim is not None:
+                            candidates = ()
+
+                        for b1 in candidates:
                             (ncdim1, axis_size1), constructs1 = list(
                                 b1.items()
                             )[0]
